@@ -86,7 +86,10 @@ def run_family(chk: Check, clauses: tuple[str, ...], runtime: bool, entries: boo
         for f in v["fails"]:
             if not f["clause"].startswith(clauses):
                 continue
-            chk.fail(f["clause"], f["locus"], {"features": sc["features"], "layout": sc["layout"], "strategy": sc["strategy"], "postprocess": v["id"].startswith("pp")}, json.dumps([e for e in t["ev"] if e["k"] in ("syntax", "export", "genimport") or (e["k"] == "import" and not e["ok"])][:3])[:500])
+            loc = dict(f["locus"])
+            if sc["layout"]["core"] in ("repeated_component", "core_is_client_tail"):
+                loc["layout"] = sc["layout"]["core"]   # package-name relations under which import arithmetic is known to go wrong (X03-F1, C11-F5)
+            chk.fail(f["clause"], loc, {"features": sc["features"], "layout": sc["layout"], "strategy": sc["strategy"], "postprocess": v["id"].startswith("pp")}, json.dumps([e for e in t["ev"] if e["k"] in ("syntax", "export", "genimport") or (e["k"] == "import" and not e["ok"])][:3])[:500])
     mid = traces[len(traces) // 2]
     chk.sample({"scenario": mid["_rec"]["sc"], "events_head": mid["ev"][:5]})
 
